@@ -91,7 +91,7 @@ Print Assumptions C11_point_split_safe.
 Theorem C11_lifetime_facts_now : forallb snd lifetime_facts = true.
 Proof. exact tables_lifetime_facts. Qed.
 Print Assumptions C11_lifetime_facts_now.
-Theorem C11_lifetime_facts_present : (16 <= length lifetime_facts)%nat.
+Theorem C11_lifetime_facts_present : (18 <= length lifetime_facts)%nat.
 Proof. exact tables_lifetime_facts_present. Qed.
 Print Assumptions C11_lifetime_facts_present.
 
